@@ -9,7 +9,7 @@ CHECKS = {
  "C08": dict(
   category="other", design_ref="DESIGN.md §4 C08",
   technique="symbolic execution (CrossHair/z3) of the real Manager: one inductive step from an arbitrary valid state, all integers symbolic",
-  text="Inductive step over the real cascade.shm.dataset.Manager: from every state satisfying the stated representation invariant (<=2 datasets quick / <=3 thorough, any status, 0-2 readers, all sizes/capacity/clock/start times unbounded z3 integers) every request (add/close/get/purge) and every disk-job completion (ok/failed) re-establishes the invariant free_space = capacity - sum(resident) >= 0, and add is granted/'wait'/'capacity exceeded' exactly as specified. The search tree is exhausted in the quick tier, so within the bound on datasets per state the result holds for all integer values and, by induction, for histories of any length.",
+  text="Inductive step over the real cascade.shm.dataset.Manager: from every state satisfying the stated representation invariant (<=2 datasets quick / <=3 thorough, any status, 0-2 readers, all sizes/capacity/clock/start times unbounded z3 integers) every request (add/close/get/purge) and every disk-job completion (ok/failed) re-establishes the invariant free_space = capacity - sum(resident) >= 0, and add is granted/'wait'/'capacity exceeded' exactly as specified. The search tree is exhausted in the quick tier, so within the bound on datasets per state the result holds for all integer values and, by induction, for histories of any length. shm-server-dispatch: sequences of <=3 client requests (allocate / finish-write / get / free-space; sizes from a boundary palette up to 2^32+8, capacities 8 and 2^32+16) encoded with the real api.ser go through the real LocalServer.start loop; the decoded answers must agree with a reference accounting, in particular the reported free space equals capacity minus resident total and the loop never dies.",
   note="Trusted: z3, CrossHair's int/bool/dict models, the stubs listed in the evidence (fake SharedMemory registry, in-memory files, deferred disk jobs executed atomically, solver-chosen clock). Outside: thread races at byte-code granularity, >3 datasets per state."),
  "C09": dict(
   category="other", design_ref="DESIGN.md §4 C09",
@@ -25,7 +25,7 @@ CHECKS.update({
   text="The real controller loop (impl.run, notify, act, scheduler.api/assign/graph) and the real worker-side task execution (RunnerContext.project, runner.run, Memory, serde) run against SimCluster. DAG shape (<=3 tasks quick, <=4 thorough; positional/keyword/multi edges, 1-2 outputs), requested outputs, cluster shape and the first K scheduling decisions (which task body / transfer / fetch runs next, which channel delivers next, how events are batched) are decision variables; the decision tree is explored until CrossHair reports it exhausted. On every path: the outputs delivered are exactly the requested ones and each equals the term a 15-line sequential evaluator computes.", note=CTRL_NOTE),
  "C02": dict(category="other", design_ref="DESIGN.md §4 C02",
   technique="solver-driven exhaustive path exploration (CrossHair/z3) of the real controller against a simulated cluster with a dispatch monitor",
-  text="Same exploration as C01 with GPU flags; a monitor inside the simulated executor checks at every dispatch: worker exists, has no unfinished sequence, satisfies the GPU requirement, task never dispatched before, every consumed dataset exists somewhere and is on the target host or a transfer to it is outstanding; at the end every task was dispatched exactly once.", note=CTRL_NOTE + " worker-wakeup: the receive loop of runner.entrypoint.entrypoint is lifted from the AST of the current source into a step function (harness error if the loop no longer has the expected shape) and driven with every arrival order of <=5 (thorough 7) messages from {command, publication of each of its two inputs, unrelated publication, unrelated purge, own output}: the sequence starts at most once, only after both inputs have arrived, and always once command and inputs have all arrived (no lost wake-up when the command overtakes a publication)."),
+  text="Same exploration as C01 with GPU flags; a monitor inside the simulated executor checks at every dispatch: worker exists, has no unfinished sequence, satisfies the GPU requirement, task never dispatched before, every consumed dataset exists somewhere and is on the target host or a transfer to it is outstanding; at the end every task was dispatched exactly once.", note=CTRL_NOTE + " worker-wakeup: the receive loop of runner.entrypoint.entrypoint is lifted from the AST of the current source into a step function (harness error if the loop no longer has the expected shape) and driven with every arrival order of <=5 (thorough 7) messages from {command, publication of each of its two inputs, unrelated publication, unrelated purge, own output}: the sequence starts at most once, only after both inputs have arrived, and always once command and inputs have all arrived (no lost wake-up when the command overtakes a publication). act-step: one call of controller.act.act on every assignment with <=3 (thorough 4) preparation entries, each local or on one of two other hosts, in any order: exactly the remote entries are commanded as transfers, in order, followed by exactly one task sequence."),
  "C03": dict(category="other", design_ref="DESIGN.md §4 C03",
   technique="solver-driven exhaustive path exploration (CrossHair/z3) of the real controller: bounded liveness monitors",
   text="Same exploration. The simulated bridge raises if the controller waits while nothing is outstanding or pending work can never become enabled; a counter around plan bounds the scheduling rounds; any exception escaping run is a bookkeeping crash. On return all tasks ran, all requested outputs have values and shutdown was called once. Includes the empty job, isolated tasks and more components than hosts.", note=CTRL_NOTE + " Fairness = every pending action eventually executes (default tail)."),
@@ -104,13 +104,14 @@ CHECKS.update({
   text="ack-messaging: a real Bridge (built by its own constructor from a queued registration) and a real Executor (recv_loop stepped one iteration at a time) talk through an in-process zmq stand-in whose first F transmissions (data frames and acknowledgements alike, both directions) are each delivered / dropped / duplicated / delayed behind the next one by solver decision, with S solver-chosen interleaving steps (controller iteration / executor iteration / clock jump past the resend grace) and then a fair tail on a perfect network. Assert, for both directions: nothing is delivered that was not sent, nothing twice, and every message is delivered or the run ends with a sender raising. retry-budget-step: with symbolic remaining budget, record time and clock, maybe_retry resends exactly the due record, decreases the budget by one and raises exactly when it reaches zero (covers the real constant 20). frame-sequences: every list of <=4 frames from {Syn, other Syn, Ack, message, payload header, raw bytes, undecodable} through Listener._recv_one: well-formed lists (what send / callback / send_data produce) return the original message (None for a retransmission) and acknowledge the Syn; everything else raises and is never delivered as a message.",
   note="Trusted: z3/CrossHair, pickle, the fakezmq contract (per-address FIFO; faults only where injected). max_retries_per_message lowered to 3 in the exploration. Outside: TCP behaviour of zmq, unbounded histories, growth of Listener.acked, heartbeats."),
 })
+CHECKS["C17"]["text"] += " Boundary literals (non-ASCII strings, 2^32, 2^63, 2^64-1, 2^64, -1) go through the real api.ser/deser before the translation: whatever the encoder accepts must come back unchanged. wire-pickle-json: every executor message class, controller reports, gateway requests/responses (incl. a job instance submitted through the real request_response / parse_request / serialize_response over a fake REQ socket) and generated job instances through orjson and back, with boundary values; declaration order of task outputs must survive."
 CHECKS["C17"]["text"] += " Executor-message framing (Syn/Ack/payload frames) is covered by the frame-sequences harness shared with C06."
 CHECKS["C17"]["technique"] += "; framing: solver-driven enumeration of frame lists through the real Listener._recv_one"
 
 CHECKS.update({
  "C05": dict(category="other", design_ref="DESIGN.md §4 C05",
   technique="symbolic execution / solver-driven enumeration (CrossHair/z3) of the Python-level failure chain: healthcheck, executor loop, execute_sequence, Bridge.recv_events, controller run under an injected failure",
-  text="Partial claim - only what a solver can reach. (a) Executor.healthcheck with symbolic integer exit codes (or None) for two workers, shm server and data server raises exactly when some child exited non-zero. (b) Executor.recv_loop stepped with a message palette and a dead child: every failure yields exactly one ExecutorFailure to the controller, sets terminating, tells live children to stop, and terminate is idempotent; ExecutorShutdown yields exactly one ExecutorExit. (c) execute_sequence with a body raising at a solver-chosen index (RuntimeError / SystemExit): TaskFailure names the task, outputs of earlier tasks only are published. (d) Bridge.recv_events on batches of <=2 (thorough 3) messages from all 15 message classes: returns only events, and raises after calling shutdown exactly when a failure/unsupported message is present. (e) the real controller run on the simulated cluster with recv_events failing at a solver-chosen call: run propagates, shutdown is called, no delivered value differs from the sequential one.",
+  text="Partial claim - only what a solver can reach. (0) Manager.atexit from an arbitrary valid store state (<=2 datasets quick, <=3 thorough, any status, readers, delayed purges; symbolic sizes) leaves no segment in the (fake) shared-memory registry. (a) Executor.healthcheck with symbolic integer exit codes (or None) for two workers, shm server and data server raises exactly when some child exited non-zero. (b) Executor.recv_loop stepped with a message palette and a dead child: every failure yields exactly one ExecutorFailure to the controller, sets terminating, tells live children to stop, and terminate is idempotent; ExecutorShutdown yields exactly one ExecutorExit. (c) execute_sequence with a body raising at a solver-chosen index (RuntimeError / SystemExit): TaskFailure names the task, outputs of earlier tasks only are published. (d) Bridge.recv_events on batches of <=2 (thorough 3) messages from all 15 message classes: returns only events, and raises after calling shutdown exactly when a failure/unsupported message is present. (e) the real controller run on the simulated cluster with recv_events failing at a solver-chosen call: run propagates, shutdown is called, no delivered value differs from the sequential one.",
   note="NOT covered (needs fault injection on live processes, a different technique family): kill -9 at a chosen point, leftover child processes or /dev/shm segments after exit, signal/atexit behaviour, bounded wall-clock time. Children are inert objects with chosen exit codes; shm client shutdown is a recorder."),
  "C07": dict(category="other", design_ref="DESIGN.md §4 C07",
   technique="solver-driven exhaustive exploration (CrossHair/z3 decision tree) of command lists, per-frame fault patterns, pool-job completion order and clock through two real DataServer objects",
